@@ -251,10 +251,24 @@ pub fn run_property(ctx: &Ctx, prop: &dyn Property) -> Summary {
             let path = res_dir.join(format!("r{wk}.jsonl"));
             let mut f = std::io::BufWriter::new(std::fs::File::create(&path).expect("cannot create result file"));
             let mut i = wk as u64;
+            let stop_flag = res_dir.join("stop-after-hangs");
+            let mut hangs = 0u32;
             while i < n {
                 let mut rng = Rng::for_run(ctx.seed, label, i);
                 let case = prop.gen_case(ctx, wk, &mut rng, i);
-                let out = prop.check(ctx, wk, &case);
+                // once hangs have been established, stop burning wall-clock on them:
+                // the check fails anyway and reports the ones already found
+                let out = if stop_flag.exists() {
+                    Outcome { skipped: Some("aborted-after-repeated-hangs".into()), ..Outcome::default() }
+                } else {
+                    prop.check(ctx, wk, &case)
+                };
+                if out.violation.as_ref().map(|v| v.detail.contains("status=hang") || v.observed.contains("status=hang")).unwrap_or(false) {
+                    hangs += 1;
+                    if hangs >= 2 {
+                        let _ = std::fs::write(&stop_flag, b"1");
+                    }
+                }
                 let line = json!({"i": i, "case": case.to_json(), "out": out.to_json(), "runs": ctx.child_runs.swap(0, Ordering::Relaxed)});
                 use std::io::Write;
                 writeln!(f, "{line}").expect("cannot write result");
@@ -402,7 +416,7 @@ pub fn run_property(ctx: &Ctx, prop: &dyn Property) -> Summary {
     let wall = t0.elapsed().as_secs_f64();
     let child_runs = ctx.child_runs.load(Ordering::Relaxed);
     let mut harness_errors: Vec<String> = vec![];
-    let enum_skips = skipped.get("enum-slot-beyond-run").copied().unwrap_or(0);
+    let enum_skips = skipped.get("enum-slot-beyond-run").copied().unwrap_or(0) + skipped.get("aborted-after-repeated-hangs").copied().unwrap_or(0);
     if (total_skipped - enum_skips) * 2 > n {
         harness_errors.push(format!("more than half of the cases were skipped ({total_skipped}/{n})"));
     }
